@@ -17,7 +17,7 @@ CHECKS = {
    "DESIGN.md §3 C11"),
  "C09": ("model_checking",
    "multi-thread product BFS (round-robin mutator steps x collector micro-steps on every green thread's heap, quarantine on task teardown) against a FIFO/exactly-once/copy-at-write channel model",
-   "Twenty-four producer/consumer programs covering scalar and heap payloads, every timing relation between write, read, task end, mutation after write and collection, and several handles (tasks, the parent, a handle received over another channel) reading one channel in turn are first run without collection and compared with the channel model, then explored exhaustively over all interleavings of mutator steps with collector steps of every thread (1/2 cycles per thread) in quarantine mode; no reachable object (including through queues) may be reclaimed, every maximal path must give the model's outcome, and no state beyond the collection-disabled run's step count may be unfinished (a collector step never changes the mutator's course).",
+   "Twenty-six producer/consumer programs covering scalar and heap payloads, every timing relation between write, read, task end, mutation after write and collection, and several handles (tasks, the parent, a handle received over another channel) reading one channel in turn, and (under the unmodified runtime only) a writer whose collector frees written messages so that addresses are reused, are first run without collection and compared with the channel model, then explored exhaustively over all interleavings of mutator steps with collector steps of every thread (1/2 cycles per thread) in quarantine mode; no reachable object (including through queues) may be reclaimed, every maximal path must give the model's outcome, and no state beyond the collection-disabled run's step count may be unfinished (a collector step never changes the mutator's course).",
    "Bounded programs and cycles; the scheduler is the real deterministic round-robin (budgets cannot reorder tasks), host-call delays are C10's job; hooks H3 trusted.",
    "DESIGN.md §3 C09"),
  "C07": ("model_checking",
